@@ -167,8 +167,9 @@ def _poly(ctx, p, rng):
                 for i in range(N):
                     ref, maj = _poly_series(J[m][i], xs, D)
                     for d in range(D):
-                        e = abs(Fraction(float(JU.data[d, pp, m, i])) - ref[d].re)
-                        if e > Fraction(1, 10 ** 9) * (maj[d].re + 1):
+                        gv = float(JU.data[d, pp, m, i])
+                        e = abs(Fraction(gv) - ref[d].re) if np.isfinite(gv) else None
+                        if e is None or e > Fraction(1, 10 ** 9) * (maj[d].re + 1):
                             ctx.violation(mech + ':value', dict(info, D=D, P=P, direction=pp, entry=[m, i], order=d, got=float(JU.data[d, pp, m, i]), want=float(ref[d].re))); return
         ctx.ok('poly:jacobian_utpm', ('poly', 'jacobian_utpm', rec, where, N, M, D, P))
     for (nm, wh, obj, snap) in kept:
